@@ -173,6 +173,11 @@ def run(rep: Report, tier: str) -> None:
     compare("Time_Period/canonical", py_tp, sql_tp, "pandas(_vtl_period_re|_sdmx_period_re)", "duckdb(TIME_PERIOD_PATTERN)", vmod.rel,
             vmod.assigns["TIME_PERIOD_PATTERN"].lineno, within=[canon])
     rep.analysed = {"pandas_codes": sorted(py_codes), "duckdb_codes": sorted(sq_codes)}
+    # ---- R20.8: run() rejects a null identifier / non-nullable value for every storage type (shared with C19 R19.1) ----
+    rep.rule("R20.8", "build_create_table_sql declares NOT NULL for identifiers and non-nullable components also when the loader overrides the column's storage type (Date as "
+                      "TIMESTAMP): the NOT NULL constraint is the only place run() rejects the nulls that validate_dataset rejects with 'An Identifier cannot have null values'")
+    from sa.checks.c19 import not_null_decision_table
+    not_null_decision_table(P, rep, "R20.8")
     # ---- R20.7: what counts as a missing value is the same for both validators ----
     rep.rule("R20.7", "every pandas read_csv on the validate_dataset side is called with keep_default_na=False and an explicit na_values (only the empty field is missing, as for "
                       "DuckDB's read_csv on the run() side): pandas' default markers would turn the texts NA, null, None, NaN, N/A into missing values and reject an identifier 'NA'")
